@@ -67,16 +67,18 @@ theorem not_before_connack (e : Engine) (p : Publish) (hs : stateBlocksAcks e.st
 
 /-- **A lost session forgets the QoS 2 receive state; a resumed one keeps it.** -/
 theorem session_lost_forgets (e : Engine) : (e.applySessionPresent false).1.inQos2 = [] := by
-  unfold Engine.applySessionPresent
-  simp only [Bool.not_false, ↓reduceIte]
   have key : ∀ (l : List Nat) (en : Engine), en.inQos2 = [] → (l.foldl (fun en id => (en.unbind id).clearQos2 id) en).inQos2 = [] := by
     intro l en h
     exact foldl_preserves (fun en id => (en.unbind id).clearQos2 id) (fun en => en.inQos2 = [])
       (fun en id h => by rw [clearQos2_inQos2, unbind_inQos2]; exact h) l en h
-  generalize hfa : Engine.failAll _ _ _ = fa
-  obtain ⟨ec, r⟩ := fa
-  simp only []
-  have := key ({ ec with inQos2 := [], allocated := [] } : Engine).userQ { ec with inQos2 := [], allocated := [] } rfl
-  repeat (first | split | exact this | simp only [this])
+  have hlost : e.sessionLostStage.1.inQos2 = [] := by
+    unfold Engine.sessionLostStage
+    simp only []
+  have hre : e.sessionLostStage.1.sessionRequeueStage.inQos2 = [] := by
+    unfold Engine.sessionRequeueStage
+    exact key _ _ hlost
+  unfold Engine.applySessionPresent
+  simp only [Bool.not_false, ↓reduceIte]
+  repeat (first | split | exact hre)
 
 end GV.Props.C05
